@@ -3,6 +3,8 @@ import json, os, re
 from rulelib import *
 import opsum
 
+THOROUGH_CFGS = ('min_none', 'min_rten', 'min_onnx')   # reduced-feature builds of the rten crate (thorough tier)
+
 EXPLANATION = (
     "Sibling agreement over every impl Operator (macro-generated ones included, all features on): in_place_inputs non-empty "
     "<=> run_in_place overridden; declared in-place indices < max_inputs and < 16; the commutative / associative sets equal "
